@@ -428,8 +428,14 @@ func check(prop, tier string) int {
 			fmt.Fprintln(os.Stderr, "govc: contract error:", er)
 		}
 	}
-	e.solveAll(all)
 	findings := loadFindings()
+	e.noRetry = map[string]bool{}
+	for _, f := range findings {
+		if f.Kind == "finding" {
+			e.noRetry[f.Obl] = true
+		}
+	}
+	e.solveAll(all)
 	known := map[string]finding{}
 	// obligations of shared functions that are recorded as a known finding of ANOTHER property: the finding is reported
 	// by that property's check; here the obligation is left out (named in the evidence), not raised again
